@@ -76,6 +76,12 @@ def table(path):
                     continue
                 for h in rng.sample(hs, len(hs)):
                     sched.push_event(mk(at[h][0], at[h][1], q0), h)
+                if trial % 2:
+                    # every second trial: the scheduler goes through a dump (pickle round trip) before it is asked
+                    import pickle
+                    sched, hs2, at2 = pickle.loads(pickle.dumps((sched, hs, [at[h] for h in hs])))
+                    at = dict(zip(hs2, at2))
+                    hs = hs2
                 live = set(hs)
                 while live and not all(at[h][0] == BIG for h in live):
                     n += 1
